@@ -1344,9 +1344,18 @@ def run(run):
     ctx = Ctx(run)
     rng = run.rng
     cases, f = gen_all(run)
+    def dispatch(c):
+        try:
+            DISPATCH[c["kind"]](ctx, c)
+        except Exception as e:
+            # the feature functions are total on these inputs: an
+            # unexpected exception is a failure of the property
+            run.record_case(c, False)
+            ctx.fail(c, "%s case raised %r" % (c["kind"], e))
+
     for c in cases:
         if c["kind"] == "mask":
-            DISPATCH[c["kind"]](ctx, c)
+            dispatch(c)
     later = [c for c in cases if c["kind"] != "mask"]
     later += [gen_dedup(rng) for _ in range(120 * f)]
     later += [gen_moments(rng, ctx.pool_contours) for _ in range(150 * f)]
@@ -1370,7 +1379,7 @@ def run(run):
     later += [gen_crosstalk(rng) for _ in range(100 * f)]
     later += [gen_dataset(rng, run.thorough) for _ in range(12 * f)]
     for c in later:
-        DISPATCH[c["kind"]](ctx, c)
+        dispatch(c)
     # ---- evaluate the model, compare ----
     for fn, jobs in ctx.jobs.items():
         outs = common.coq_map(run.scratch, "c18_" + fn, HEADER, fn,
